@@ -164,7 +164,11 @@ func c06SpecToLib(c *h.Ctx, bucket string, n *anode) {
 // c06LibToSpec: the bytes the library produces are the specification's bytes and decode, under the
 // independent decoder, to the same value.
 func c06LibToSpec(c *h.Ctx, bucket string, n *anode) {
-	a := n.build()
+	c06LibToSpecValue(c, bucket, n.build())
+}
+
+// c06LibToSpecValue: the same for a live value (whatever the application did to it since it was built).
+func c06LibToSpecValue(c *h.Ctx, bucket string, a amf0.Amf0) {
 	t := amfStr(a)
 	out, cl := libMarshal(a)
 	if !c.Hold(cl == "ok", "marshal_ok", "amf0.enc "+h.Trunc(t, 600), cl, "ok") {
@@ -380,4 +384,11 @@ func c06(c *h.Ctx) {
 		}
 		c.Case("mixed/"+cls, h.Hex(w), true)
 	}
+	// values that change AFTER they were marshalled: a nested container gets new properties, a *String / *Number inside
+	// the tree is assigned in place; after every step the bytes the library produces are the specification's encoding of
+	// the value as it is NOW (not of what it was when somebody last marshalled it)
+	for i := 0; i < c.N(150, 3000); i++ {
+		amfIncremental(c, func(stage string, root amf0.Amf0, nodes int) { c06LibToSpecValue(c, stage, root) })
+	}
+
 }
